@@ -59,7 +59,8 @@ def _sample_inputs():
     try:
         for v in ('single', 'dump_all', 'pin_model', 'planes_tables'):
             try:
-                out.append(dassh.DASSH_Input(G.write_problem(os.path.join(wd, v), **VARIANTS[v])))
+                out.append(dassh.DASSH_Input(G.write_problem(os.path.join(wd, v), **{
+                    k: x for k, x in VARIANTS[v].items() if not k.startswith('_')})))
             except BaseException:
                 pass
     finally:
@@ -90,6 +91,11 @@ VARIANTS = {
     'unrodded': dict(asms={'a1': dict(unrodded=[('lower', 0.0, 0.3, 'simple'), ('upper', 0.8, 1.0, '6node')])}),
     'double_duct': dict(asms={'a1': dict(n_duct=2)}),
     'planes_tables': dict(setup_extra='    axial_plane = 0.25, 0.7\n    axial_mesh_size = 0.005\n'),
+    # a table request just above the last dumped plane (the dumped heights are accumulated sums: 2.2999999999999914 for a 2.3 m core)
+    'asm_tables': dict(length=2.3, setup_extra='    axial_mesh_size = 0.01\n    [[Dump]]\n        coolant = True\n'
+                       '    [[AssemblyTables]]\n        [[[T1]]]\n            type = coolant_subchannel\n'
+                       '            assemblies = 1\n            axial_positions = 0.5, 2.3\n',
+                       _postprocess=True),
 }
 
 
@@ -127,7 +133,9 @@ def dynamic_variant(name):
     wd = tempfile.mkdtemp(prefix='c16_')
     res = {}
     try:
-        p = G.write_problem(wd, **VARIANTS[name])
+        kw = {k: v for k, v in VARIANTS[name].items() if not k.startswith('_')}
+        post = VARIANTS[name].get('_postprocess', False)
+        p = G.write_problem(wd, **kw)
         inp = dassh.DASSH_Input(p)
         snap = copy.deepcopy(inp.data)
         r1 = dassh.Reactor(inp, path=wd, write_output=False)
@@ -136,6 +144,10 @@ def dynamic_variant(name):
         r1.temperature_sweep()
         diff = _deep_diff(snap, inp.data)
         res['readonly_after_sweep'] = (not diff, '; '.join(diff[:6]))
+        if post:
+            r1.postprocess()
+            diff = _deep_diff(snap, inp.data)
+            res['readonly_after_postprocess'] = (not diff, '; '.join(diff[:6]))
         t1 = [a.temp_coolant.copy() for a in r1.assemblies]
         try:
             r2 = dassh.Reactor(inp, path=wd, write_output=False)
